@@ -2,7 +2,7 @@ CONSTANTS
   NSegs = 3
   Faults = TRUE
   FaultSegs = 2
-  Wide = TRUE
+  Wide = FALSE
 SPECIFICATION Spec
 INVARIANTS MachineIsDeclarative FoldIsMachine MalformedRejected IndicesResolve LinesNonDecreasing LineIsSemiCount ExactAgrees EmitCase
 CHECK_DEADLOCK FALSE
